@@ -465,6 +465,9 @@ func (g *commonGen) fill(w *World, kind string, b int) Step {
 			st.A = 0
 		}
 		st.Sec = g.newPasswordFor(st.A)
+		if g.r.Chance(1, 3) {
+			st.Str = map[string]string{"via": "admin"}
+		}
 	case "totp_confirm", "totp_remove", "totp_validate", "sms_confirm", "sms_remove", "sms_validate":
 		st.A = sessAcct(w, b)
 		if st.A < 0 {
@@ -554,10 +557,10 @@ func (g *commonGen) fill(w *World, kind string, b int) Step {
 	case "probe":
 		paths := []string{"/probe/open", "/probe/mw/0/0/0/p", "/probe/mw/1/0/0/p", "/probe/mw/2/2/0/p", "/probe/mw/3/1/0/p", "/probe/mw/1/1/1/p"}
 		if c.hasModule("lock") {
-			paths = append(paths, "/probe/lock")
+			paths = append(paths, "/probe/lock", "/nok/lock")
 		}
 		if c.hasModule("confirm") {
-			paths = append(paths, "/probe/confirm")
+			paths = append(paths, "/probe/confirm", "/nok/confirm")
 		}
 		st.Str = map[string]string{"path": paths[g.r.Intn(len(paths))]}
 	case "copy_cookie":
